@@ -51,6 +51,19 @@ Theorem C05_realloc_pointer : forall todo h seal l fresh, RI h seal l -> NoDup t
              absl h' (rename_all todo fresh l) = absl h l /\ (forall a, In a todo -> h' a = None).
 Proof. exact realloc_RI. Qed.
 
+(* ... in the very terms of the abstract model: touch_ptr of the bucket holding key q is do_touch q, removing that
+   bucket is remove_id q, and the bucket seal.prev points to holds the head (LRU) of the abstract list *)
+Theorem C05_touch_refines : forall g a g' e, RI (gh g) (gseal g) (glist g) -> In a (glist g) -> entry_at (gh g) a = Some e ->
+  NoDup (kids (absG g)) -> b_touch g a = Some g' ->
+  absG g' = remove_id (kid (ek e)) (absG g) ++ [e] /\ find_id (kid (ek e)) (absG g) = Some e.
+Proof. exact b_touch_is_do_touch. Qed.
+Theorem C05_remove_refines : forall g a g' e, RI (gh g) (gseal g) (glist g) -> In a (glist g) -> entry_at (gh g) a = Some e ->
+  NoDup (kids (absG g)) -> b_remove g a = Some g' -> absG g' = remove_id (kid (ek e)) (absG g).
+Proof. exact b_remove_is_remove_id. Qed.
+Theorem C05_lru_is_head : forall g a l0, RI (gh g) (gseal g) (glist g) -> glist g = l0 ++ [a] ->
+  prevof (gh g) (gseal g) = Some a /\ exists e, entry_at (gh g) a = Some e /\ hd_error (absG g) = Some e.
+Proof. exact lru_is_head. Qed.
+
 Example C05_example :
   let o := {| o_tomb := 0; o_reuse := false; o_alloc := true |} in
   let mk i := {| ek := {| kid := i; ktok := i; kheap := 0 |}; ev := {| vtok := 100 + i; vtag := i; vheap := 0 |}; es := 72 |} in
@@ -66,3 +79,6 @@ Print Assumptions C05_touch_pointer.
 Print Assumptions C05_remove_pointer.
 Print Assumptions C05_insert_pointer.
 Print Assumptions C05_realloc_pointer.
+Print Assumptions C05_touch_refines.
+Print Assumptions C05_remove_refines.
+Print Assumptions C05_lru_is_head.
